@@ -1,11 +1,5 @@
 // ===== spec/bound_wf.rs : well-formedness of the resolved (query, schema) pair =====
 // ---- well-formedness of the (query, schema) pair handed to code generation (established by query::resolve, unit `resolve`)
-pub open spec fn schema_wf(s: &Schema) -> bool {
-    &&& s.stored_objects@.len() <= 0xffff_ffff
-    &&& forall|f: int| 0 <= f < s.stored_fields@.len() ==> type_in_range(s, (#[trigger] s.stored_fields@[f]).r#type.id)
-    &&& forall|u: int, k: int| 0 <= u < s.stored_unions@.len() && 0 <= k < s.stored_unions@[u].variants@.len()
-            ==> type_in_range(s, #[trigger] s.stored_unions@[u].variants@[k])
-}
 pub open spec fn bound_wf(q: &Query, s: &Schema) -> bool {
     &&& query_wf(q)
     &&& schema_wf(s)
